@@ -34,8 +34,8 @@ FEATURES = {
     "none": [],
 }
 CARGO_FLAGS = {
-    "ws": ["-p", "retrofire-core", "-p", "retrofire-geom", "-F", "retrofire-core/std,retrofire-core/mm"],
-    "std": ["-p", "retrofire-core", "-p", "retrofire-geom", "-F", "retrofire-core/std"],
+    "ws": ["-p", "retrofire-core", "-p", "retrofire-geom", "-F", "retrofire-core/std,retrofire-core/mm,retrofire-geom/std"],
+    "std": ["-p", "retrofire-core", "-p", "retrofire-geom", "-F", "retrofire-core/std,retrofire-geom/std"],
     "libm": ["-p", "retrofire-core", "-F", "retrofire-core/libm"],
     "mm": ["-p", "retrofire-core", "-F", "retrofire-core/mm"],
     "none": ["-p", "retrofire-core"],
